@@ -361,8 +361,9 @@ def selftest(ctx, lines, K):
     def plain(n):
         r = lines[n - 1]
         return (lines[n]["ev"] == "xverdict" and lines[n]["sreq"] == "ok" and lines[n]["invoked"] and r.get("ev") == "xreset" and r["flag"] == "none"
-                and r["pa"][0]["rule"] == "none" and r["pa"][0]["nest"] == "direct" and r["pa"][0]["loc"] == "body" and r["pa"][0]["mode"] == "required"
-                and all(x["cls"] != "absent" and x["s"] == "plain" for x in r["pv"]))
+                and r["pa"][0]["rule"] == "none" and r["pa"][0]["nest"] == "direct" and r["pa"][0]["loc"] in ("query", "header") and r["pa"][0]["mode"] == "required"
+                and r["pa"][0]["kind"] not in ("string", "bytes", "any")      # (no recorded deviation blurs the verdict on such a value)
+                and all(x["cls"] != "absent" and x["s"] == "plain" and x["n"] > 0 for x in r["pv"]))
     target = next((n for n in range(21, len(lines)) if plain(n)), None)
     if target is None:
         raise core.Infra("trace self-test: no plain accepted exchange in the trace")
